@@ -161,3 +161,80 @@ pub fn usage(msg: &str) -> ! {
     eprintln!("usage: {}", msg);
     std::process::exit(2)
 }
+
+// ---- allocation tracking (C05/C09/C11/C20: "no buffer sized by an unchecked field") -----------------
+use std::alloc::{GlobalAlloc, Layout, System};
+use std::sync::atomic::{AtomicUsize, Ordering};
+
+pub struct TrackAlloc;
+static MAX_REQ: AtomicUsize = AtomicUsize::new(0);
+/// single requests above this are refused (null -> alloc error -> abort, observed by the supervisor)
+pub const ALLOC_REFUSE: usize = 1 << 30;
+
+unsafe impl GlobalAlloc for TrackAlloc {
+    unsafe fn alloc(&self, l: Layout) -> *mut u8 {
+        MAX_REQ.fetch_max(l.size(), Ordering::Relaxed);
+        if l.size() > ALLOC_REFUSE {
+            return std::ptr::null_mut();
+        }
+        System.alloc(l)
+    }
+    unsafe fn alloc_zeroed(&self, l: Layout) -> *mut u8 {
+        MAX_REQ.fetch_max(l.size(), Ordering::Relaxed);
+        if l.size() > ALLOC_REFUSE {
+            return std::ptr::null_mut();
+        }
+        System.alloc_zeroed(l)
+    }
+    unsafe fn dealloc(&self, p: *mut u8, l: Layout) {
+        System.dealloc(p, l)
+    }
+    unsafe fn realloc(&self, p: *mut u8, l: Layout, new_size: usize) -> *mut u8 {
+        MAX_REQ.fetch_max(new_size, Ordering::Relaxed);
+        if new_size > ALLOC_REFUSE {
+            return std::ptr::null_mut();
+        }
+        System.realloc(p, l, new_size)
+    }
+}
+pub fn alloc_reset() {
+    MAX_REQ.store(0, Ordering::Relaxed);
+}
+/// largest single allocation request since the last alloc_reset()
+pub fn alloc_max() -> usize {
+    MAX_REQ.load(Ordering::Relaxed)
+}
+
+// ---- isolated execution ------------------------------------------------------------------------------
+/// Runs f on cases[from..]; protocol with the python supervisor (vlib.Ctx.isolated): "S <i>" on stdout before a
+/// case, the JSON result (with "i") appended to out_path, then "D <i>".  If this process dies or hangs inside
+/// f the supervisor knows which case did it, records outcome abort/timeout and restarts after it.
+pub fn run_isolated(cases: &[Value], from: usize, out_path: &str, mut f: impl FnMut(usize, &Value) -> Value) {
+    use std::fs::OpenOptions;
+    let mut out = OpenOptions::new().create(true).append(true).open(out_path).expect("open out");
+    let stdout = std::io::stdout();
+    for (i, c) in cases.iter().enumerate().skip(from) {
+        {
+            let mut so = stdout.lock();
+            writeln!(so, "S {}", i).unwrap();
+            so.flush().unwrap();
+        }
+        alloc_reset();
+        let t = std::time::Instant::now();
+        let mut r = f(i, c);
+        let ms = t.elapsed().as_millis() as u64;
+        if let Some(o) = r.as_object_mut() {
+            o.insert("i".to_string(), Value::from(i));
+            o.insert("max_alloc".to_string(), Value::from(alloc_max()));
+            o.insert("ms".to_string(), Value::from(ms));
+        }
+        serde_json::to_writer(&mut out, &r).unwrap();
+        out.write_all(b"\n").unwrap();
+        out.flush().unwrap();
+        {
+            let mut so = stdout.lock();
+            writeln!(so, "D {}", i).unwrap();
+            so.flush().unwrap();
+        }
+    }
+}
